@@ -175,7 +175,7 @@ def case_cli(run, i):
         tabio.write(make_cna(segcols), ps)
     thr, minp = float(rng.choice([0.0, 0.15, 0.5])), int(rng.integers(1, 5))
     low, male, female, withseg = bool(i % 2), bool((i // 2) % 2), bool((i // 4) % 2), bool(i % 3)
-    argv = ["genemetrics", pb, "-o", po, "-t", repr(thr), "-m", str(minp), "-x", "female" if female else "male"] + (["--drop-low-coverage"] if low else []) \
+    argv = ["genemetrics", pb, "-o", po, "-t", repr(thr), "-m", str(minp), "-x", cli_plumb.sex_arg(female, i)] + (["--drop-low-coverage"] if low else []) \
         + (["-y"] if male else []) + (["-s", ps] if withseg else [])
     run.begin_case("cli", i, cls="cli:genemetrics", argv=argv[2:])
     r = cli_plumb.check_cli(run, rt, CM, "do_genemetrics", argv,
